@@ -19,7 +19,9 @@ RULE = ("tempo lists of 1-12 changes (bpm over the whole positive range: 0.01-1.
         "1e4-1e6, from exactly-representable sets or arbitrary doubles, metronomes 1-8, "
         "pure time-signature changes that repeat the bpm, initial offset of both signs), handed over through every entry "
         "point (from_bpm_changes_snap, from_bpm_changes_offset, TimingMap(...), BpmList.to_timing_map) in original / "
-        "reversed / shuffled list order; 0-60 queries in random order with duplicates; claims offsets/roundtrip/snap/"
+        "reversed / shuffled list order; 0-60 queries in random order with duplicates; a third of the offsets cases are a "
+        "SESSION on one TimingMap object (query, one change's bpm multiplied in place while every change keeps its "
+        "millisecond time, query again - judged against the map as it is then); claims offsets/roundtrip/snap/"
         "beats, float and exact arithmetic modes; snap inputs include exact midpoints of neighbouring grid doubles; "
         "non-trivial = at least 2 tempo changes and a query beyond the first change, or a snap input off the grid")
 ASSUMPTIONS = [
@@ -167,7 +169,14 @@ def gen(rng, tier, i):
         cs = gen_changes(rng, compatible)
         t0 = Fr(rng.choice([0, 0, -1000, 1234, -37.5, 250000.125, rng.uniform(-5000, 5000)]))
         entry, mode = gen_entry(rng, cs, mode)
-        return dict(claim="offsets", mode=mode, entry=entry, t0=R(t0), cs=cs, qs=gen_queries(rng, cs))
+        case = dict(claim="offsets", mode=mode, entry=entry, t0=R(t0), cs=cs, qs=gen_queries(rng, cs))
+        if rng.random() < 0.35:
+            # a session on one TimingMap object: constant metronome, list handed in time order, >= 2 changes
+            cs2 = gen_changes(rng, True, const_met=True)
+            if len(cs2) >= 2:
+                case = dict(claim="offsets", mode=mode, entry=rng.choice(["offset", "raw"]), t0=R(t0), cs=cs2,
+                            qs=gen_queries(rng, cs2), sess=dict(i=rng.randrange(0, len(cs2) - 1), f=rng.choice([2, 2, 4])))
+        return case
     if r < 0.65:
         compatible = rng.random() < 0.85
         cs = gen_changes(rng, compatible)
@@ -329,6 +338,8 @@ def valid(case):
             return False
         if case.get("entry") == "bpmlist" and case["mode"] != "float":
             return False
+        if "sess" in case and not session_ok(case):
+            return False
         return True
     except Exception:
         return False
@@ -480,7 +491,58 @@ def run(case, drv):
     return dict(offsets=run_offsets, roundtrip=run_roundtrip, snap=run_snap, beats=run_beats)[claim](case, drv)
 
 
+def session_case(case):
+    """the case that describes the TimingMap AFTER the in-place edit of a session: change i gets `f` times its bpm, every
+    change keeps its millisecond time, so the positions of the later changes move (constant metronome only)"""
+    cs, i, f = case["cs"], case["sess"]["i"], Fr(case["sess"]["f"])
+    met = cs[0]["met"]
+    T = change_times(cs, F(case["t0"]))
+    bpms = [F(c["bpm"]) * (f if k == i else 1) for k, c in enumerate(cs)]
+    out, B = [], Fr(0)
+    for k, c in enumerate(cs):
+        if k > 0:
+            B += (T[k] - T[k - 1]) * bpms[k - 1] / Fr(60000)
+        m = int(B // met)
+        out.append(dict(bpm=R(bpms[k]), met=met, measure=m, beat=R(B - m * met)))
+    c2 = dict(case, cs=out, entry="raw")
+    c2.pop("sess")
+    return c2
+
+
+def session_ok(case):
+    se = case.get("sess")
+    cs = case["cs"]
+    return (isinstance(se, dict) and isinstance(se.get("i"), int) and 0 <= se["i"] < len(cs) - 1 and se.get("f") in (2, 4)
+            and case.get("entry") in ("offset", "raw") and len({c["met"] for c in cs}) == 1
+            and all("k" not in c for c in cs))
+
+
 def run_offsets(case, drv):
+    """one query; with a `sess` field a SESSION on one TimingMap object: query, edit one change's bpm in place (every
+    change keeps its millisecond time), query again - the second answer must be the one of the map as it is now"""
+    hold = []
+    r1 = _run_offsets(case, drv, None, hold)
+    if "sess" not in case or not session_ok(case) or not hold or not (r1["ok"] and r1["agree"]) or "impl-raises" in r1["tags"]:
+        return r1
+    tm = hold[0]
+    c2 = session_case(case)
+    with exact_mode(case["mode"] == "exact"):
+        b = tm.bpm_changes_offset[case["sess"]["i"]]
+        b.bpm = b.bpm * case["sess"]["f"]
+    r2 = _run_offsets(c2, drv, tm, [])
+    out = dict(r1)
+    out["ok"] = r1["ok"] and r2["ok"]
+    out["agree"] = r1["agree"] and r2["agree"]
+    out["dom"] = r1["dom"] and r2["dom"]
+    out["kf"] = r1.get("kf") or r2.get("kf")
+    out["tags"] = sorted(set(r1["tags"]) | {"session", "session-second:" + ("in-dom" if r2["dom"] else "out-dom")})
+    out["maxdev"] = max(r1.get("maxdev", 0.0), r2.get("maxdev", 0.0))
+    if not (r2["ok"] and r2["agree"]):
+        out["detail"] = dict(phase="second query after the in-place edit", edited_case=c2, second=r2.get("detail"))
+    return out
+
+
+def _run_offsets(case, drv, tm_given, hold):
     RAConst, TimingMap, BpmChangeSnap, Snap, Snapper = _imports()
     mode = case["mode"]
     cs, qs = case["cs"], case["qs"]
@@ -502,7 +564,8 @@ def run_offsets(case, drv):
     st_agree = True
     with exact_mode(mode == "exact"):
         try:
-            tm = build_tm(case, mode)
+            tm = build_tm(case, mode) if tm_given is None else tm_given
+            hold.append(tm)
             st_agree = stored_agree(tm, m_tm, mode)
             snaps = [Snap(q[0], F(q[1]), None if q[2] is None else F(q[2])) for q in jq]
             impl = ("ok", [Fr(x) for x in tm.offsets(snaps)] if snaps else [])
